@@ -531,6 +531,8 @@ impl ErasedNode for Node {
             panic!("trying to make a node necessary whose defining bind is not necessary");
         }
         tracing::debug!("node {:?} became necessary", self.id);
+        #[cfg(cormacrelf_incremental_rs_verif)]
+        crate::verif::ev("became_necessary", &[("n", crate::verif::nix(self))]);
         state.num_nodes_became_necessary.increment();
         self.maybe_handle_after_stabilisation(state);
         /* Since [node] became necessary, to restore the invariant, we need to:
@@ -565,6 +567,8 @@ impl ErasedNode for Node {
 
     fn became_unnecessary(&self, state: &State) {
         tracing::debug!("node {:?} became unnecessary", self.id);
+        #[cfg(cormacrelf_incremental_rs_verif)]
+        crate::verif::ev("became_unnecessary", &[("n", crate::verif::nix(self))]);
         state.num_nodes_became_unnecessary.increment();
         self.maybe_handle_after_stabilisation(state);
         state.set_height(self.packed(), -1);
@@ -612,6 +616,11 @@ impl ErasedNode for Node {
         }
         state.num_nodes_recomputed.increment();
         self.recomputed_at.set(state.stabilisation_num.get());
+        #[cfg(cormacrelf_incremental_rs_verif)]
+        crate::verif::ev(
+            "recompute",
+            &[("n", crate::verif::nix(self)), ("h", self.height() as i64)],
+        );
 
         let Some(kind) = self.kind() else {
             // We should not be invalidating nodes that have already been queued for recompute.
@@ -717,6 +726,15 @@ impl ErasedNode for Node {
                     let mut bind_rhs = bind.rhs.borrow_mut();
                     core::mem::swap(&mut *bind_rhs, &mut old_rhs);
                 }
+                #[cfg(cormacrelf_incremental_rs_verif)]
+                crate::verif::ev(
+                    "bind_rhs",
+                    &[
+                        ("n", crate::verif::nix(self)),
+                        ("rhs", crate::verif::nix(&rhs)),
+                        ("old", old_rhs.as_ref().map_or(0, |o| crate::verif::nix(o))),
+                    ],
+                );
                 /* Anticipate what [maybe_change_value] will do, to make sure Bind_main is stale
                 right away. This way, if the new child is invalid, we'll satisfy the invariant
                 saying that [needs_to_be_computed bind_main] in [propagate_invalidity] */
@@ -831,6 +849,15 @@ impl ErasedNode for Node {
                 "can_recompute_now {:?}, proceeding to recompute",
                 can_recompute_now
             );
+            #[cfg(cormacrelf_incremental_rs_verif)]
+            crate::verif::ev(
+                "direct",
+                &[
+                    ("n", crate::verif::nix(parent)),
+                    ("child", crate::verif::nix(child)),
+                    ("can_now", can_recompute_now as i64),
+                ],
+            );
             true
         } else {
             // we already know that !parent.is_in_recompute_heap()
@@ -859,6 +886,8 @@ impl ErasedNode for Node {
             return;
         }
         tracing::debug!("invalidating node");
+        #[cfg(cormacrelf_incremental_rs_verif)]
+        crate::verif::ev("invalidate", &[("n", crate::verif::nix(self))]);
         self.maybe_handle_after_stabilisation(state);
         self.value_opt.take();
         // this was for node-level subscriptions. we don't have those
@@ -1139,6 +1168,8 @@ impl ErasedNode for Node {
         };
         #[cfg(debug_assertions)]
         self.assert_currently_running_node_is_child("make_stale");
+        #[cfg(cormacrelf_incremental_rs_verif)]
+        crate::verif::ev("expert_make_stale", &[("n", crate::verif::nix(self))]);
         match expert.make_stale() {
             MakeStale::AlreadyStale => {}
             MakeStale::Ok => {
@@ -1163,6 +1194,15 @@ impl ErasedNode for Node {
         //           state.only_in_debug.expert_nodes_created_by_current_node
         //           (T node))
         let new_child_index = expert.add_child_edge(packed_edge.clone());
+        #[cfg(cormacrelf_incremental_rs_verif)]
+        crate::verif::ev(
+            "expert_add_dep",
+            &[
+                ("n", crate::verif::nix(self)),
+                ("child", crate::verif::nix(packed_edge.erased_input())),
+                ("ix", new_child_index as i64),
+            ],
+        );
         /* [node] is not guaranteed to be necessary, even if we are running in a child of
         [node], because we could be running due to a parent other than [node] making us
         necessary. */
@@ -1188,6 +1228,15 @@ impl ErasedNode for Node {
         [add_dependency] */
         let edge_index = dyn_edge.index_cell().get().unwrap();
         let edge_child = dyn_edge.packed();
+        #[cfg(cormacrelf_incremental_rs_verif)]
+        crate::verif::ev(
+            "expert_remove_dep",
+            &[
+                ("n", crate::verif::nix(self)),
+                ("child", crate::verif::nix(&edge_child)),
+                ("ix", edge_index as i64),
+            ],
+        );
         let last_edge = expert.last_child_edge().unwrap();
         let last_edge_index = last_edge.index_cell().get().unwrap();
         if edge_index != last_edge_index {
@@ -1699,6 +1748,11 @@ impl Node {
         run_child_changed: bool,
         state: &State,
     ) -> Option<NodeRef> {
+        #[cfg(cormacrelf_incremental_rs_verif)]
+        crate::verif::ev(
+            if did_change { "changed" } else { "cutoff" },
+            &[("n", crate::verif::nix(self))],
+        );
         if did_change {
             self.changed_at.set(state.stabilisation_num.get());
             state.num_nodes_changed.increment();
